@@ -159,7 +159,7 @@ struct runner {
     const bool fatal = (std::string(prop) == "C01" && opts.check_c01) ||
                        (std::string(prop) == "C02" && opts.check_c02) ||
                        (std::string(prop) == "C10" && opts.check_c10) ||
-                       (std::string(prop) == "C08" && opts.check_c08);
+                       (std::string(prop) == "C08" && opts.check_c08 && opts.c08_fatal);
     if (!fatal) {
       if (st) st->inc(std::string("other_property_failures_") + prop);
       return false;
